@@ -209,10 +209,30 @@ def check_relr(ctx, w):
     ctx.ob('E-i', f.construct, 'bitmap exhausted test', expr.spec_cond('entry_offset == 0') in tests, got=tests)
     # order inside the bitmap loop: shift, exhausted?, test bit, i += 1
     if len(whiles) >= 2:
-        body = [U(s).split('\n')[0] for s in whiles[1].body]
-        ok = len(body) == 4 and body[0].replace(' ', '') in ('entry_offset=entry_offset>>1', 'entry_offset>>=1') and body[1].startswith('if entry_offset == 0') \
-            and body[2].startswith('if entry_offset & 1') and body[3] == 'i += 1'
-        ctx.ob('E-i', f.construct, 'bitmap loop order: shift, stop, test, count', ok, got=body,
+        zero = expr.CP(expr.spec_cond('entry_offset == 0'), True)
+        bit = expr.CP(expr.spec_cond('(entry_offset & 1) != 0'), True)
+        ok = True
+        why = None
+        kinds = set()
+        for p in paths.enum_paths(whiles[1].body):
+            ev = expr.path_events(p, env)
+            stm = [x[1] for x in ev if x[0] == 's']
+            cs = [x[1] for x in ev if x[0] == 'c']
+            good = bool(ev) and ev[0] == ('s', 'entry_offset >>= 1') and len(cs) >= 1 and cs[0][0] == zero[0]
+            if good and cs[0] == zero:
+                kinds.add('stop')
+                good = stm == ['entry_offset >>= 1'] and ev[-1] == ('end', 'break')
+            elif good:
+                good = len(cs) == 2 and cs[1][0] == bit[0] and stm[-1] == 'i += 1' and ev[-1] == ('end', 'fall')
+                if good and cs[1] == bit:
+                    kinds.add('set')
+                    good = stm[1:-1] == ['calc_offset = base + i * self._entrysize', 'yield Relocation(Container(r_offset=calc_offset), self._elffile)']
+                elif good:
+                    kinds.add('clear')
+                    good = stm == ['entry_offset >>= 1', 'i += 1']
+            if not good:
+                ok, why = False, ev
+        ctx.ob('E-i', f.construct, 'bitmap loop order: shift, stop, test, count', ok and kinds == {'stop', 'set', 'clear'}, got=why or sorted(kinds),
                msg='bit k (k>=1) must map to base + (k-1)*entrysize: the shift precedes the test and the index counts after it')
     ys = [expr.nfs(y.value, env) for y in ast.walk(f.node) if isinstance(y, ast.Yield)]
     ctx.ob('E-i', f.construct, 'yields anchor entry and computed offsets',
